@@ -693,6 +693,14 @@ class _Exporter:
             return text
         return ""
 
+    def _default_opset_arg(self, opsets: dict[str, int]) -> str:
+        """The default_opset argument of @script: python operators need it (use_operators)."""
+        if self.use_operators:
+            for domain in ("", "ai.onnx"):
+                if domain in opsets:
+                    return f"default_opset={self._make_opset_name(domain, opsets[domain])}"
+        return ""
+
     def _translate_function_signature(self, funproto: onnx.FunctionProto) -> str:
         """Generate signature for FunctionProto."""
         type_map = _attribute_param_types(funproto)
@@ -732,7 +740,8 @@ class _Exporter:
             result.append(line)
 
         opset_name = self._make_opset_name(funproto.domain, 1)
-        add_line(f"@script({opset_name})")
+        default_opset = self._default_opset_arg(opsets)
+        add_line(f"@script({opset_name}{', ' if default_opset else ''}{default_opset})")
         fun_name = self._make_callee_name(funproto.domain, 1, funproto.name)
         fun_sig = self._translate_function_signature(funproto)
         add_line(f"def {fun_name}{fun_sig}")
@@ -765,7 +774,7 @@ class _Exporter:
         else:
             indent_level = 1
             indent = ""
-        add(f"{indent}@script()")
+        add(f"{indent}@script({self._default_opset_arg(opsets)})")
         # A main graph needs its own remapping scope, like a function body (for-loops write to it).
         self._name_remappings.append({})
         # The body is translated first (it numbers the short names of rename=True);
